@@ -1013,7 +1013,7 @@ func (w *wWorld) readBack(t *txn.SidetreeTxn, refs []*operation.Reference, want 
 	}
 
 	// ... and by a node whose chunk-file limit is what intake's own arithmetic requires: n deltas of at most MaxDeltaSize
-	// canonical bytes each (the size intake measures) need no more than n*(MaxDeltaSize+1)+32 bytes, compressed or not;
+	// canonical bytes each (the size intake measures) need no more than n*(MaxDeltaSize+1)+128 bytes (the slack covers the JSON frame and the fixed cost of a compressed stream), compressed or not;
 	// the decompression factor stays what the protocol version says
 	reqs := make([][]byte, len(want))
 	for i, op := range want {
@@ -1023,11 +1023,11 @@ func (w *wWorld) readBack(t *txn.SidetreeTxn, refs []*operation.Reference, want 
 	for _, v := range w.versions {
 		if v.P.GenesisTime == t.ProtocolVersion {
 			if n, err := arithReadBack(w.cas, v.P, reqs, t); err != nil {
-				w.fail("C13", "readback/arithmetic-limits", fmt.Sprintf("a batch of %d operations, each with a delta within MaxDeltaSize, does not read back under a chunk-file limit of count x (MaxDeltaSize+1)+32 bytes: %v", len(want), err))
+				w.fail("C13", "readback/arithmetic-limits", fmt.Sprintf("a batch of %d operations, each with a delta within MaxDeltaSize, does not read back under a chunk-file limit of count x (MaxDeltaSize+1)+128 bytes: %v", len(want), err))
 
 				return
 			} else if n >= 0 && n != len(want) {
-				w.fail("C13", "readback/arithmetic-limits", fmt.Sprintf("a batch of %d operations read back as %d operations under a chunk-file limit of count x (MaxDeltaSize+1)+32 bytes", len(want), n))
+				w.fail("C13", "readback/arithmetic-limits", fmt.Sprintf("a batch of %d operations read back as %d operations under a chunk-file limit of count x (MaxDeltaSize+1)+128 bytes", len(want), n))
 
 				return
 			}
@@ -1104,7 +1104,7 @@ func arithReadBack(cas *simenv.CAS, p protocol.Protocol, reqs [][]byte, t *txn.S
 	}
 
 	p.MaxOperationCount = 1 << 20
-	p.MaxChunkFileSize = uint(len(reqs))*(p.MaxDeltaSize+1) + 32
+	p.MaxChunkFileSize = uint(len(reqs))*(p.MaxDeltaSize+1) + 128
 	p.MaxProvisionalIndexFileSize, p.MaxCoreIndexFileSize, p.MaxProofFileSize = 1<<26, 1<<26, 1<<26
 
 	got, err := txnprovider.NewOperationProvider(p, operationparser.New(p), cas, simenv.NewCompressionProxy(nil)).GetTxnOperations(t)
